@@ -301,13 +301,15 @@ def judge(case, impl):
     if impl == 'panic' or impl.startswith('abort') or impl.startswith('bad'):
         return 'panic / abort instead of a value or an error value'
     lo, init, hi = d['lo'], d['init'], d['hi']
-    nan_bounds = any(v != v for v in (lo, init, hi))
+    if any(v != v for v in (lo, init, hi)):
+        # a NaN is no bracket end: outside the quantifier; only "never a panic" is judged
+        # (observed: NaN ends are not rejected; on the zero target Ok(NaN) is returned)
+        return None if impl.startswith(('ok ', 'err ')) else 'malformed output ' + impl
     outside = (init < lo) or (init > hi)
-    if not nan_bounds:
-        if outside and impl != 'err XInitOutOfBounds':
-            return 'initial guess outside the bracket is not rejected with XInitOutOfBounds'
-        if not outside and impl == 'err XInitOutOfBounds':
-            return 'XInitOutOfBounds although the initial guess is inside the bracket'
+    if outside and impl != 'err XInitOutOfBounds':
+        return 'initial guess outside the bracket is not rejected with XInitOutOfBounds'
+    if not outside and impl == 'err XInitOutOfBounds':
+        return 'XInitOutOfBounds although the initial guess is inside the bracket'
     if outside:
         return None
     g = target_of(d)
@@ -318,12 +320,13 @@ def judge(case, impl):
         if tok == 'nan':
             return 'Ok(NaN)'
         x = hex2f(tok)
-        if not fin(x):
-            return 'Ok(non-finite)'
-        if not nan_bounds and not (lo <= x <= hi):
+        if not (lo <= x <= hi):
             return 'returned x outside [lower, upper]'
         if g is None:
             return None
+        if not fin(x):
+            # an infinite bracket end (extended reals): only the zero target has |g| < 1e-4 there
+            return None if all(c == 0 for c in g) else 'returned x is infinite and g is not the zero polynomial'
         fx = Fraction(x)
         v = peval(g, fx)
         env = 2 * (len(g) + 3) * EPS * pabs_eval(g, fx) + TINY
@@ -342,9 +345,12 @@ def judge(case, impl):
 
 
 def known(case, impl, clause):
-    """F-C06-LOOSE-TOL: the stopping rule is a relative step test in percent, the acceptance test an absolute residual
-    gate; when the tolerance is looser than gate*100/(|g'| |x|) the loop stops while the residual is still above the
-    gate and NoConvergence is returned although the root is bracketed and the budget is not exhausted."""
+    """listed in known_findings.d/C06.json; each keyed on an input class computed from the case alone.
+    F-C06-LOOSE-TOL: the stopping rule is a relative step test in percent, the acceptance test an absolute residual
+    gate; when the tolerance is looser than gate*100/(|g'| |x|) (|g'| and |x| bounded over the bracket) the loop can stop
+    while the residual is still above the gate and NoConvergence is returned although the root is bracketed and the
+    budget is not exhausted.  For a tolerance at or below that threshold the step test forces |g| < 1e-4, so a
+    NoConvergence there is NOT covered by this finding and is reported as a violation."""
     if clause != CONVERSE or impl != 'err NoConvergence':
         return None
     d = parse(case)
